@@ -5,7 +5,7 @@ from common import from_replay, to_replay  # noqa: F401
 
 PID = "C11"
 COQ_MODULE = "Prop_C11"
-THEOREMS = ['C11_every_history', 'C11_closure_panic', 'C11_guard_panic', 'C11_catch_reraises', "C11_every_schedule_all_released"]
+THEOREMS = ['C11_every_history', 'C11_closure_panic', 'C11_guard_panic', 'C11_catch_reraises', "C11_every_schedule_all_released", "C11_every_schedule_panic_holds_nothing"]
 CASE_MODULES = ["Pf_Hist", "Monitors"]
 CHECK_WITHOUT_PROOF = True
 TRUSTED = common.TRUSTED_COMMON
